@@ -148,7 +148,7 @@ pub(crate) fn parse_part(
             parse_time_part(chars, string)?
         }
         _ => {
-            remove_part(chars.len(), string)?;
+            remove_part(chars.chars().count(), string)?;
             None
         }
     })
@@ -311,8 +311,7 @@ pub(crate) fn parse_date_part(
         'D' => match chars.len() {
             2 => match string.chars().nth(2) {
                 Some(char) if char.is_ascii_digit() => {
-                    // Using unwrap because it's safe to assume that the string is long enough
-                    let day = pick_part::<u32>(3, string, "day of year").unwrap();
+                    let day = pick_part::<u32>(3, string, "day of year")?;
 
                     Some(ParsedPart {
                         value: day as i64,
@@ -339,8 +338,7 @@ pub(crate) fn parse_date_part(
             _ => match string.chars().nth(1) {
                 Some(char) if char.is_ascii_digit() => match string.chars().nth(2) {
                     Some(char) if char.is_ascii_digit() => {
-                        // Using unwrap because it's safe to assume that the string is long enough
-                        let day = pick_part::<u32>(3, string, "day of year").unwrap();
+                        let day = pick_part::<u32>(3, string, "day of year")?;
 
                         Some(ParsedPart {
                             value: day as i64,
@@ -348,8 +346,7 @@ pub(crate) fn parse_date_part(
                         })
                     }
                     _ => {
-                        // Using unwrap because it's safe to assume that the string is long enough
-                        let day = pick_part::<u32>(2, string, "day of year").unwrap();
+                        let day = pick_part::<u32>(2, string, "day of year")?;
 
                         Some(ParsedPart {
                             value: day as i64,
@@ -369,7 +366,7 @@ pub(crate) fn parse_date_part(
         },
         'e' => parse_wday(chars.len(), string)?,
         _ => {
-            remove_part(chars.len(), string)?;
+            remove_part(chars.chars().count(), string)?;
             None
         }
     })
@@ -693,7 +690,7 @@ pub(crate) fn parse_time_part(
         'X' => parse_zone(chars.len(), string, true)?,
         'x' => parse_zone(chars.len(), string, false)?,
         _ => {
-            remove_part(chars.len(), string)?;
+            remove_part(chars.chars().count(), string)?;
             None
         }
     })
@@ -937,14 +934,24 @@ fn parse_zone(
     })
 }
 
-fn remove_part(length: usize, string: &mut String) -> Result<(), AstrolabeError> {
-    if string.chars().count() < length {
-        Err(create_invalid_format(
+/// Returns the byte index after the first `length` chars of the string, or `None` if the string is shorter
+fn byte_index(string: &str, length: usize) -> Option<usize> {
+    string
+        .char_indices()
+        .map(|(index, _)| index)
+        .chain(std::iter::once(string.len()))
+        .nth(length)
+}
+
+pub(crate) fn remove_part(length: usize, string: &mut String) -> Result<(), AstrolabeError> {
+    match byte_index(string, length) {
+        None => Err(create_invalid_format(
             "String to parse is too short. Please check your format string.".to_string(),
-        ))
-    } else {
-        string.replace_range(0..length, "");
-        Ok(())
+        )),
+        Some(end) => {
+            string.replace_range(0..end, "");
+            Ok(())
+        }
     }
 }
 
@@ -953,19 +960,20 @@ fn pick_part<T: std::str::FromStr>(
     string: &mut String,
     part_name: &str,
 ) -> Result<T, AstrolabeError> {
-    if string.chars().count() < length {
-        Err(create_invalid_format(
+    match byte_index(string, length) {
+        None => Err(create_invalid_format(
             "String to parse is too short. Please check your format string.".to_string(),
-        ))
-    } else {
-        let part = string[0..length].parse::<T>().map_err(|_| {
-            create_invalid_format(format!(
-                "Failed parsing {} from given string. Value is '{}'.",
-                part_name,
-                &string[0..length]
-            ))
-        })?;
-        string.replace_range(0..length, "");
-        Ok(part)
+        )),
+        Some(end) => {
+            let part = string[0..end].parse::<T>().map_err(|_| {
+                create_invalid_format(format!(
+                    "Failed parsing {} from given string. Value is '{}'.",
+                    part_name,
+                    &string[0..end]
+                ))
+            })?;
+            string.replace_range(0..end, "");
+            Ok(part)
+        }
     }
 }
